@@ -317,6 +317,9 @@ pub struct World {
     pub mempool: Vec<Transaction>,
     /// human-readable log of what was executed (for evidence samples)
     pub trace: Vec<String>,
+    /// a block builder that keeps working on the very state object a rejected call was made on (rejection is
+    /// specified to leave it untouched), instead of on a copy taken before the call
+    pub keep_rejected_object: bool,
 }
 
 /// One 2-thread rayon pool per shard thread, reused by every World created on that thread.
@@ -391,6 +394,7 @@ impl World {
             blocks_sealed: 0,
             mempool: vec![],
             trace: vec![],
+            keep_rejected_object: false,
         }
     }
 
@@ -447,7 +451,13 @@ impl World {
                 self.cur = t;
                 (Outcome::Ok(()), None)
             }
-            Ok((Err(e), t)) => (Outcome::Rejected(format!("{:?}", e)), Some(t.verif_view())),
+            Ok((Err(e), t)) => {
+                let v = t.verif_view();
+                if self.keep_rejected_object {
+                    self.cur = t;
+                }
+                (Outcome::Rejected(format!("{:?}", e)), Some(v))
+            }
             Err(p) => (Outcome::Panicked(p), None),
         }
     }
